@@ -15,6 +15,7 @@ CONSTANTS
  Goals = {1, 2, 3}
  Origins = {"o"}
  AdvKinds = {}
+ NodeRank <- RankT
  AdvSrcs = {"adv"}
  TrackWire = TRUE
  UseIds = TRUE
